@@ -109,6 +109,9 @@ def run(ctx):
     report_witness(r3, "src/gwf/backends::<X>Ops.submit_target::scheduler-model", "src/gwf/backends/slurm.py:1", cached_witness(ctx, "cluster", cluster_witness),
                    "a submission the scheduler refuses (unknown prerequisite, answer without a job id) raises; the id handed back is the id of the job the scheduler created",
                    select=lambda d: d.startswith("[refuse]") or "hands back" in d)
+    from .evalhelpers import local_client_witness
+    report_witness(r3, "src/gwf/backends/local.py::Client.submit::accepted-id", "src/gwf/backends/local.py:1", cached_witness(ctx, "local-client", local_client_witness),
+                   "a task the pool accepted (also as id 0) is returned as accepted, so it is tracked", select=lambda d: "tid=" in d)
     # who may use subprocess
     allowed = {"gwf.backends.utils:call", "gwf.workflow:Workflow.shell"}
     n_sites = 0
